@@ -4,6 +4,7 @@ import (
 	"fmt"
 	"sort"
 	"strings"
+	"time"
 
 	"simh/codec"
 	"simh/env"
@@ -155,6 +156,12 @@ func runC18(c *Ctx) {
 		sessLen = kd
 	}
 	d = append(d, "sessionenckey="+kd)
+	if c.T.Bool(1, 3) {
+		// sessions kept in files (the cookie carries an id): the substituted keys protect those
+		// just the same
+		cfg.SessionStore = "file"
+		d = append(d, "session-store=file")
+	}
 	// the optional user token has a key of its own, substituted like the others
 	userTok, userLen := false, "32"
 	if keyFocus && c.T.Bool(1, 2) {
@@ -293,6 +300,34 @@ func runC18(c *Ctx) {
 				}
 				outcome = "serves, nothing issued under a substituted key"
 			}
+		}
+		if !g.Exited && g.Server != nil && has("openid") && tokenAuth && paaLen != "32" && !g.TLS && len(cfg.Hosts) > 0 && c.S.Viol == nil {
+			// ... and it must not ACCEPT anything under the key it could not make either: an access
+			// cookie signed with the empty key (or the short configured one), carrying an access
+			// token the provider honours, is a forgery anybody can make
+			for _, k := range []string{"", cfg.PAASigningKey} {
+				host := cfg.Hosts[0]
+				from := "10.2.0.77:52077"
+				at := c.W.IdP.IssueAccessToken("mallory")
+				p := &TunPlan{Name: "f" + fmt.Sprint(len(k)), Transport: "ws", From: from, ConnID: fmt.Sprintf("{C18-FORGE-%d}", len(k)), CloseAfter: -1}
+				p.Pkts = []CPkt{PHandshake(ServerCapsOf(true, false), 1, 0), PTunnelCreate(MintCookie(c, k, "mallory", host, clientIP(from), at, 5*time.Minute), false)}
+				tn := StartTunnels(c, []*TunPlan{p})
+				c.S.Run(func() bool {
+					return tn[0].Client.Failed != "" || tn[0].Err != "" || len(tn[0].Client.Packets()) >= 2 || tn[0].Client.Ended()
+				}, 4000, 20*time.Second)
+				pk := tn[0].Client.Packets()
+				if len(pk) >= 2 && pk[1].Pkt.Type == codec.PktTunnelResponse && pk[1].Pkt.Status == 0 {
+					c.S.Fail("C18", "runs-with-empty-key:forged-cookie-accepted", "%s: the secure random source failed while the instance started; it serves, and it accepts an access cookie signed with the %d-character key %q: no fresh key was substituted, the instance runs with an empty or short signing key", descr, len(k), k)
+					return
+				}
+				tn[0].Client.CloseAll(false)
+				c.S.Run(nil, 200, time.Second)
+				if k == cfg.PAASigningKey {
+					break
+				}
+			}
+			c.S.Count("probe.forged_cookie_under_unsubstituted_key_refused")
+			outcome += "; forged cookies under the empty/short key refused"
 		}
 		c.Res.Reach = true
 		c.Samplef("%s => %s", descr, outcome)
